@@ -346,6 +346,21 @@ func WriteEvidence(opt Options, rr *RunResult, v *Verdict, wall float64, level s
 	}
 	cov["trusted_base"] = tb
 	cov["modules"] = rr.Modules
+	{ // cover goals: how many were decided by a witness, how many only not refuted
+		wit, weak := 0, 0
+		for _, o := range rr.Obls {
+			if o.Kind == "cover" && o.Status == "discharged" && relevant(o, opt.Prop) {
+				if strings.Contains(o.Detail, "witness found") {
+					wit++
+				} else {
+					weak++
+				}
+			}
+		}
+		if wit+weak > 0 {
+			cov["cover_goals"] = map[string]int{"witness_found": wit, "not_refuted_only": weak}
+		}
+	}
 	cov["functions_under_contract"] = rr.Funcs
 	backends := map[string]int{}
 	var solverS, slowest float64
